@@ -212,7 +212,7 @@ func c02(r *Report) {
 					sl := w.backSlice(c.Call.Args[0], flowOpt{})
 					fresh = anyIn(sl, func(v ssa.Value) bool {
 						cc, ok := v.(*ssa.Call)
-						return ok && calleeName(cc) == "(*M.Context).Session" && cc.Call.Args[0] == ssa.Value(handle.Params[1])
+						return ok && calleeName(cc) == "(*M.Context).Session" && isParamVal(cc.Call.Args[0], handle.Params[1])
 					})
 				}
 			}
@@ -297,6 +297,7 @@ func c02(r *Report) {
 		for _, n := range []string{"newID", "newSession", "withSession"} {
 			errorsReturnedRule(r, r.W.Fn("", n), false)
 		}
+		statelessRule(r, r.W.Fn("", "newID"), map[string]bool{}, "IDs repeat once the kept state wraps: two exchanges share a context ID")
 		// every context gets a fresh random ID: the id of each Context built in the core is the
 		// result of newID()
 		{
@@ -327,7 +328,7 @@ func c02(r *Report) {
 					return false
 				}
 				g, isG := unwrapLoad(c.Common().Args[0]).(*ssa.Global)
-				return isG && g.Name() == "ctxs" && c.Common().Args[1] == ssa.Value(ul.Params[0])
+				return isG && g.Name() == "ctxs" && isParamVal(c.Common().Args[1], ul.Params[0])
 			}
 			gu := G(ul)
 			nd := 0
@@ -373,7 +374,7 @@ func c02(r *Report) {
 						return false
 					}
 					a := wc.Common().Args
-					return messageOfHeader(a[0]) == msg && a[1] == ssa.Value(c)
+					return sameAs(messageOfHeader(a[0]), msg) && a[1] == ssa.Value(c)
 				}
 				join := t.Nil
 				// no exit before rejoining
@@ -403,7 +404,7 @@ func c02(r *Report) {
 		es := branchesOn(skips[0])
 		ownCtx := false
 		if rt != nil {
-			ownCtx = skips[0].Call.Args[0] == ssa.Value(rt.Params[1])
+			ownCtx = isParamVal(skips[0].Call.Args[0], rt.Params[1])
 		} else {
 			// in the exchange function: the context linked to this request
 			for _, lc := range plainCalls(handle, "M.link") {
@@ -603,7 +604,7 @@ func (w *World) resBound(res, req ssa.Value, at ssa.Instruction, depth int) (boo
 				continue
 			}
 			for _, uu := range *fa.Referrers() {
-				if st, ok := uu.(*ssa.Store); ok && st.Addr == ssa.Value(fa) && st.Val == req && g.Before(st, at) {
+				if st, ok := uu.(*ssa.Store); ok && st.Addr == ssa.Value(fa) && sameAs(st.Val, req) && g.Before(st, at) {
 					return true, "dominated by the store res.Request = req"
 				}
 			}
@@ -624,12 +625,12 @@ func (w *World) resBound(res, req ssa.Value, at ssa.Instruction, depth int) (boo
 	case *ssa.Call:
 		switch calleeName(x) {
 		case nNewResp:
-			if x.Call.Args[2] == req {
+			if sameAs(x.Call.Args[2], req) {
 				return true, "proxyutil.NewResponse(_, _, req)"
 			}
 			return false, "NewResponse built for a different request"
 		case "net/http.ReadResponse":
-			if x.Call.Args[1] == req {
+			if sameAs(x.Call.Args[1], req) {
 				return true, "http.ReadResponse(_, req)"
 			}
 			return false, "ReadResponse for a different request"
@@ -640,7 +641,7 @@ func (w *World) resBound(res, req ssa.Value, at ssa.Instruction, depth int) (boo
 			break
 		}
 		if calleeName(c) == "net/http.ReadResponse" && x.Index == 0 {
-			if c.Call.Args[1] == req {
+			if sameAs(c.Call.Args[1], req) {
 				return true, "http.ReadResponse(_, req)"
 			}
 			return false, "ReadResponse for a different request"
@@ -652,7 +653,7 @@ func (w *World) resBound(res, req ssa.Value, at ssa.Instruction, depth int) (boo
 		// map req to the callee's parameter
 		var preq ssa.Value
 		for i, a := range c.Call.Args {
-			if a == req {
+			if sameAs(a, req) {
 				preq = f.Params[i]
 			}
 		}
@@ -675,6 +676,29 @@ func (w *World) resBound(res, req ssa.Value, at ssa.Instruction, depth int) (boo
 // values of result idx.
 func returnValuesFrom(b *ssa.BasicBlock, idx int) ([]ssa.Value, int, bool) {
 	paths, ok := blockPaths(b, 2000)
+	if !ok {
+		return nil, 0, false
+	}
+	var out []ssa.Value
+	for _, p := range paths {
+		last := p[len(p)-1]
+		r, isRet := last.Instrs[len(last.Instrs)-1].(*ssa.Return)
+		if !isRet {
+			continue
+		}
+		for _, v := range retVals(r, idx) {
+			out = append(out, resolveOnPath(v, p)...)
+		}
+	}
+	return out, len(paths), true
+}
+
+// returnValuesFromEdge is returnValuesFrom for the paths that start with the
+// CFG edge from -> to: the branch taken at the end of `from` is part of each
+// path, so what it establishes (this error is non-nil) prunes the paths that
+// contradict it later (the `if err != nil` after an inlined helper).
+func returnValuesFromEdge(from, to *ssa.BasicBlock, idx int) ([]ssa.Value, int, bool) {
+	paths, ok := blockPathsE(from, to, 2000)
 	if !ok {
 		return nil, 0, false
 	}
